@@ -61,7 +61,7 @@ const (
 type Expect struct {
 	Kind       Kind
 	Why        string
-	ErrAllowed bool // for Data: an error is also acceptable (padding / zero records / ambiguous framing)
+	ErrAllowed bool // for Data: an error is also acceptable (non-zero padding / zero records / ambiguous framing)
 	Fields     []Field
 	// Records: one or two acceptable readings (body to end of bytes; body as declared by set length)
 	Records [][][]string
@@ -224,7 +224,15 @@ func (s *Store) data(p refcodec.Parsed, b []byte) Expect {
 				continue
 			}
 			valid++
-			if pad > 0 || len(recs) == 0 {
+			// set padding (RFC 7011 3.3.1: shorter than any record, zero octets) belongs to a valid set, which
+			// must be decoded; padding that is not zero, or a set holding nothing but padding, may be refused
+			zeroPad := true
+			for _, x := range body[len(body)-pad:] {
+				if x != 0 {
+					zeroPad = false
+				}
+			}
+			if (pad > 0 && !zeroPad) || len(recs) == 0 {
 				e.ErrAllowed = true
 			}
 			e.Records = append(e.Records, s.render(fields, recs))
